@@ -64,6 +64,9 @@ var checks = map[string][]HarnessSpec{
 		{Name: "verifC16Expiry", Pkg: ".", Labels: []string{"hit", "miss"}},
 		{Name: "verifC16Cache", Pkg: ".", Labels: []string{"history", "cache-hit"}},
 	},
+	"C20": {
+		{Name: "verifC20Publish", Mod: "publish", Pkg: ".", Labels: []string{"published"}},
+	},
 	"SMOKE": {
 		{Name: "verifSmoke", Pkg: "."},
 	},
